@@ -639,7 +639,8 @@ def _check_variant(name, label, x_mk, y_mk, expect_equal, res, case, guard=None)
         return
     if expect_equal:
         if not (a and b):
-            res.violation(f"C12|{name}|order-dependent:{label}", "same content in another insertion order compares unequal", case)
+            res.violation(f"C12|{name}|{'representation' if '(as ' in label else 'order'}-dependent:{label}",
+                          "same content (another insertion order / numeric representation) compares unequal", case)
         else:
             hx, hy = _try_hash(x), _try_hash(y)
             if hx[0] == "ok" and hy[0] == "ok" and hx[1] != hy[1]:
@@ -811,6 +812,29 @@ def run_class(name, spec, res, pairs=False):
                     continue
                 _check_variant(name, label, lambda: cls(**mkkw()), y_mk, False, res, case, guard)
         _check_setter_route(name, spec, basek, res)
+        # the same numbers in another numeric representation (numpy scalar, int for an integral float) are the same attribute values
+        import numpy as np
+        for p, v in mkkw().items():
+            reps = []
+            if isinstance(v, bool) or not isinstance(v, (int, float)):
+                continue
+            if isinstance(v, float):
+                reps.append(("np.float64", lambda v=v: np.float64(v)))
+                if v.is_integer():
+                    reps.append(("int", lambda v=v: int(v)))
+            else:
+                reps.append(("np.int64", lambda v=v: np.int64(v)))
+                reps.append(("float", lambda v=v: float(v)))
+            for rn, rf in reps:
+                def y_mk(mkkw=mkkw, p=p, rf=rf):
+                    kw = mkkw(); kw[p] = rf()
+                    return cls(**kw)
+                try:
+                    y_mk()
+                except Exception:
+                    res.guarded += 1; res.outcomes["representation-rejected-by-constructor"] += 1
+                    continue
+                _check_variant(name, f"{p}(as {rn})", lambda: cls(**mkkw()), y_mk, True, res, {"class": name, "base": basek, "representation": [p, rn]})
         for j in spec.get("joint", []):
             def y_mk(mkkw=mkkw, j=j):
                 kw = mkkw()
